@@ -149,6 +149,7 @@ struct RefRing {
     enabled: bool,
     kick: Option<RawFd>,
     call: bool,
+    callfd: Option<RawFd>,
 }
 
 macro_rules! c11_history {
@@ -157,7 +158,7 @@ macro_rules! c11_history {
             let (mut h, _ids) = $mk(2, &[0b11]);
             let epfd = ev::EPFD0;
             vgm::vg().features = kani::any();
-            let mut rr = [RefRing { started: false, enabled: false, kick: None, call: false }; 2];
+            let mut rr = [RefRing { started: false, enabled: false, kick: None, call: false, callfd: None }; 2];
             let mut next_fd = vgm::FD0;
             let mut dispatched_ok = true;
             let mut step = 0;
@@ -313,7 +314,7 @@ macro_rules! c11_step {
             let epfd = ev::EPFD0;
             vgm::vg().features = kani::any();
             h.acked_features = PF; // PROTOCOL_FEATURES acknowledged: rings are enabled only by SET_VRING_ENABLE
-            let mut rr = [RefRing { started: false, enabled: false, kick: None, call: false }; 2];
+            let mut rr = [RefRing { started: false, enabled: false, kick: None, call: false, callfd: None }; 2];
             // ---- pre-state
             let mut k = 0;
             while k < 2 {
@@ -337,6 +338,13 @@ macro_rules! c11_step {
                     std::mem::forget(r);
                     rr[k].enabled = true;
                 }
+                // a call descriptor may be installed (SET_VRING_CALL never starts a ring that has no kick descriptor)
+                if kani::any() {
+                    let cfd = vgm::FD0 + 4 + k as RawFd;
+                    let r = h.set_vring_call(k as u8, Some(file(cfd)));
+                    std::mem::forget(r);
+                    rr[k].callfd = Some(cfd);
+                }
                 // a kick may already be pending on the current descriptor
                 if kani::any() && rr[k].kick.is_some() {
                     vgm::kick(fd);
@@ -358,6 +366,7 @@ macro_rules! c11_step {
             let he_before = vgm::vg().he_calls;
             let op: u8 = $op;
             let old_kick = rr[q].kick;
+            let old_call = rr[q].callfd;
             match op {
                 0 => {
                     // SET_FEATURES without PROTOCOL_FEATURES: enables all rings - whatever feature word was
@@ -387,7 +396,9 @@ macro_rules! c11_step {
                 }
                 3 => {
                     let r = h.set_vring_call(q as u8, Some(file(newfd)));
+                    assert!(r.is_ok());
                     std::mem::forget(r);
+                    rr[q].callfd = Some(newfd);
                 }
                 4 => {
                     let en: bool = kani::any();
@@ -402,6 +413,7 @@ macro_rules! c11_step {
                     std::mem::forget(r);
                     rr[q].started = false;
                     rr[q].kick = None;
+                    rr[q].callfd = None;
                 }
                 6 => {
                     let r = h.reset_device();
@@ -449,6 +461,7 @@ macro_rules! c11_step {
                 assert!(vr::is_started(v) == rr[k].started, "C11: ring started by its kick descriptor, stopped by GET_VRING_BASE only");
                 assert!(vr::is_enabled(v) == rr[k].enabled, "C11: ring enabled/disabled exactly by SET_FEATURES without PF, SET_VRING_ENABLE, RESET_DEVICE");
                 assert!(vr::kick_fd(v) == rr[k].kick, "C11: current kick descriptor");
+                assert!(vr::call_fd(v) == rr[k].callfd, "C11: call descriptor installed by SET_VRING_CALL, dropped by GET_VRING_BASE only");
                 if let Some(fd) = rr[k].kick {
                     let reg = vgm::registered(epfd, fd);
                     assert!(reg.is_some() == (rr[k].started && rr[k].enabled), "C11: kick descriptor (also one installed while the ring was already started) is watched by the worker iff the ring is started and enabled");
@@ -469,10 +482,17 @@ macro_rules! c11_step {
                 assert!(vgm::vg().closed[(o - vgm::FD0) as usize], "C09: the ring's previous kick descriptor must be closed when it is replaced / dropped");
                 assert!(vgm::registrations_of(o) == 0, "C11: a dropped kick descriptor is no longer watched");
             }
+            if (op == 3 || op == 5) && old_call.is_some() {
+                let o = old_call.unwrap();
+                assert!(vgm::vg().closed[(o - vgm::FD0) as usize], "C09: the ring's previous call descriptor must be closed when it is replaced / dropped by GET_VRING_BASE");
+            }
             let mut k = 0;
             while k < 2 {
                 if let Some(fd) = rr[k].kick {
                     assert!(!vgm::vg().closed[(fd - vgm::FD0) as usize], "C09: an installed kick descriptor was closed");
+                }
+                if let Some(fd) = rr[k].callfd {
+                    assert!(!vgm::vg().closed[(fd - vgm::FD0) as usize], "C09: an installed call descriptor was closed");
                 }
                 k += 1;
             }
@@ -881,29 +901,29 @@ fn routing_dispatch(masks: &[u64], q: usize) {
     assert!(g.he_ring_id == ids[q], "C17: the ring slice element at that event id is queue q");
     assert!(!vgm::pending(fd), "C11: the kick is consumed by the dispatch");
 }
-// @harness props=C17 tier=quick reach=off timeout=600 bound="event-id / owner of queue 0 with 1 worker thread(s): ALL 64-bit masks per thread (sparse, overlapping, bits beyond the 4 queues)" stubs="Epoll::ctl (ghost interest lists), EventConsumer::consume, close/OwnedFd::drop"
+// @harness props=C17,C11 tier=quick reach=off timeout=600 bound="event-id / owner of queue 0 with 1 worker thread(s): ALL 64-bit masks per thread (sparse, overlapping, bits beyond the 4 queues)" stubs="Epoll::ctl (ghost interest lists), EventConsumer::consume, close/OwnedFd::drop"
 h_proof! { #[kani::unwind(7)] fn c17_u_registration_t1_q0() { routing_registration(1, 0) } }
-// @harness props=C17 tier=quick reach=off timeout=600 bound="event-id / owner of queue 1 with 2 worker thread(s): ALL 64-bit masks per thread (sparse, overlapping, bits beyond the 4 queues)" stubs="Epoll::ctl (ghost interest lists), EventConsumer::consume, close/OwnedFd::drop"
+// @harness props=C17,C11 tier=quick reach=off timeout=600 bound="event-id / owner of queue 1 with 2 worker thread(s): ALL 64-bit masks per thread (sparse, overlapping, bits beyond the 4 queues)" stubs="Epoll::ctl (ghost interest lists), EventConsumer::consume, close/OwnedFd::drop"
 h_proof! { #[kani::unwind(7)] fn c17_u_registration_t2_q1() { routing_registration(2, 1) } }
-// @harness props=C17 tier=quick reach=off timeout=600 bound="event-id / owner of queue 3 with 3 worker thread(s): ALL 64-bit masks per thread (sparse, overlapping, bits beyond the 4 queues)" stubs="Epoll::ctl (ghost interest lists), EventConsumer::consume, close/OwnedFd::drop"
+// @harness props=C17,C11 tier=quick reach=off timeout=600 bound="event-id / owner of queue 3 with 3 worker thread(s): ALL 64-bit masks per thread (sparse, overlapping, bits beyond the 4 queues)" stubs="Epoll::ctl (ghost interest lists), EventConsumer::consume, close/OwnedFd::drop"
 h_proof! { #[kani::unwind(7)] fn c17_u_registration_t3_q3() { routing_registration(3, 3) } }
-// @harness props=C17 tier=thorough reach=off timeout=600 bound="event-id / owner of queue 2 with 3 worker thread(s): ALL 64-bit masks per thread (sparse, overlapping, bits beyond the 4 queues)" stubs="Epoll::ctl (ghost interest lists), EventConsumer::consume, close/OwnedFd::drop"
+// @harness props=C17,C11 tier=thorough reach=off timeout=600 bound="event-id / owner of queue 2 with 3 worker thread(s): ALL 64-bit masks per thread (sparse, overlapping, bits beyond the 4 queues)" stubs="Epoll::ctl (ghost interest lists), EventConsumer::consume, close/OwnedFd::drop"
 h_proof! { #[kani::unwind(7)] fn c17_u_registration_t3_q2() { routing_registration(3, 2) } }
-// @harness props=C17 tier=thorough reach=off timeout=600 bound="event-id / owner of queue 0 with 2 worker thread(s): ALL 64-bit masks per thread (sparse, overlapping, bits beyond the 4 queues)" stubs="Epoll::ctl (ghost interest lists), EventConsumer::consume, close/OwnedFd::drop"
+// @harness props=C17,C11 tier=thorough reach=off timeout=600 bound="event-id / owner of queue 0 with 2 worker thread(s): ALL 64-bit masks per thread (sparse, overlapping, bits beyond the 4 queues)" stubs="Epoll::ctl (ghost interest lists), EventConsumer::consume, close/OwnedFd::drop"
 h_proof! { #[kani::unwind(7)] fn c17_u_registration_t2_q0() { routing_registration(2, 0) } }
-// @harness props=C17 tier=thorough reach=off timeout=600 bound="event-id / owner of queue 0 with 3 worker thread(s): ALL 64-bit masks per thread (sparse, overlapping, bits beyond the 4 queues)" stubs="Epoll::ctl (ghost interest lists), EventConsumer::consume, close/OwnedFd::drop"
+// @harness props=C17,C11 tier=thorough reach=off timeout=600 bound="event-id / owner of queue 0 with 3 worker thread(s): ALL 64-bit masks per thread (sparse, overlapping, bits beyond the 4 queues)" stubs="Epoll::ctl (ghost interest lists), EventConsumer::consume, close/OwnedFd::drop"
 h_proof! { #[kani::unwind(7)] fn c17_u_registration_t3_q0() { routing_registration(3, 0) } }
-// @harness props=C17 tier=quick reach=off timeout=600 bound="dispatch of a kick on queue 2 for the concrete queues-per-thread configuration [0b0101, 0b1010]: real handle_event on the owning worker" stubs="Epoll::ctl (ghost interest lists), EventConsumer::consume, close/OwnedFd::drop"
+// @harness props=C17,C11 tier=quick reach=off timeout=600 bound="dispatch of a kick on queue 2 for the concrete queues-per-thread configuration [0b0101, 0b1010]: real handle_event on the owning worker" stubs="Epoll::ctl (ghost interest lists), EventConsumer::consume, close/OwnedFd::drop"
 h_proof! { #[kani::unwind(7)] fn c17_u_dispatch_interleaved_q2() { routing_dispatch(&[0b0101, 0b1010], 2) } }
-// @harness props=C17 tier=quick reach=off timeout=600 bound="dispatch of a kick on queue 3 for the concrete queues-per-thread configuration [0b0101, 0b1010]: real handle_event on the owning worker" stubs="Epoll::ctl (ghost interest lists), EventConsumer::consume, close/OwnedFd::drop"
+// @harness props=C17,C11 tier=quick reach=off timeout=600 bound="dispatch of a kick on queue 3 for the concrete queues-per-thread configuration [0b0101, 0b1010]: real handle_event on the owning worker" stubs="Epoll::ctl (ghost interest lists), EventConsumer::consume, close/OwnedFd::drop"
 h_proof! { #[kani::unwind(7)] fn c17_u_dispatch_interleaved_q3() { routing_dispatch(&[0b0101, 0b1010], 3) } }
-// @harness props=C17 tier=quick reach=off timeout=600 bound="dispatch of a kick on queue 1 for the concrete queues-per-thread configuration [0b0011, 0b0110, 0b1000]: real handle_event on the owning worker" stubs="Epoll::ctl (ghost interest lists), EventConsumer::consume, close/OwnedFd::drop"
+// @harness props=C17,C11 tier=quick reach=off timeout=600 bound="dispatch of a kick on queue 1 for the concrete queues-per-thread configuration [0b0011, 0b0110, 0b1000]: real handle_event on the owning worker" stubs="Epoll::ctl (ghost interest lists), EventConsumer::consume, close/OwnedFd::drop"
 h_proof! { #[kani::unwind(7)] fn c17_u_dispatch_overlap_q1() { routing_dispatch(&[0b0011, 0b0110, 0b1000], 1) } }
-// @harness props=C17 tier=thorough reach=off timeout=600 bound="dispatch of a kick on queue 2 for the concrete queues-per-thread configuration [0b0011, 0b0110, 0b1000]: real handle_event on the owning worker" stubs="Epoll::ctl (ghost interest lists), EventConsumer::consume, close/OwnedFd::drop"
+// @harness props=C17,C11 tier=thorough reach=off timeout=600 bound="dispatch of a kick on queue 2 for the concrete queues-per-thread configuration [0b0011, 0b0110, 0b1000]: real handle_event on the owning worker" stubs="Epoll::ctl (ghost interest lists), EventConsumer::consume, close/OwnedFd::drop"
 h_proof! { #[kani::unwind(7)] fn c17_u_dispatch_overlap_q2() { routing_dispatch(&[0b0011, 0b0110, 0b1000], 2) } }
-// @harness props=C17 tier=thorough reach=off timeout=600 bound="dispatch of a kick on queue 3 for the concrete queues-per-thread configuration [0b110001, 0b1110]: real handle_event on the owning worker" stubs="Epoll::ctl (ghost interest lists), EventConsumer::consume, close/OwnedFd::drop"
+// @harness props=C17,C11 tier=thorough reach=off timeout=600 bound="dispatch of a kick on queue 3 for the concrete queues-per-thread configuration [0b110001, 0b1110]: real handle_event on the owning worker" stubs="Epoll::ctl (ghost interest lists), EventConsumer::consume, close/OwnedFd::drop"
 h_proof! { #[kani::unwind(7)] fn c17_u_dispatch_beyond_q3() { routing_dispatch(&[0b110001, 0b1110], 3) } }
-// @harness props=C17 tier=thorough reach=off timeout=600 bound="dispatch of a kick on queue 3 for the concrete queues-per-thread configuration [0b1111]: real handle_event on the owning worker" stubs="Epoll::ctl (ghost interest lists), EventConsumer::consume, close/OwnedFd::drop"
+// @harness props=C17,C11 tier=thorough reach=off timeout=600 bound="dispatch of a kick on queue 3 for the concrete queues-per-thread configuration [0b1111]: real handle_event on the owning worker" stubs="Epoll::ctl (ghost interest lists), EventConsumer::consume, close/OwnedFd::drop"
 h_proof! { #[kani::unwind(7)] fn c17_u_dispatch_single_q3() { routing_dispatch(&[0b1111], 3) } }
 
 // @harness props=C17 tier=quick reach=off bound="register_listener / unregister_listener: all 64-bit ids against 1..=6 queues; exit event id = num_queues" stubs="Epoll::ctl (ghost interest lists)"
